@@ -90,6 +90,25 @@ func (e *fedEnv) RoundTrip(req *http.Request) (*http.Response, error) {
 		e.viol = append(e.viol, fmt.Sprintf("subgraph %d received a body that is not JSON: %s", sub, short(string(body))))
 	}
 	q.query, q.vars = env.Query, string(env.Variables)
+	if len(env.Variables) > 0 {
+		var vv map[string]any
+		vd := json.NewDecoder(bytes.NewReader(env.Variables))
+		vd.UseNumber()
+		if vd.Decode(&vv) == nil {
+			// single entity requests use $representations, merged multi-entity requests
+			// $representations_f1, $representations_f2, ...
+			for _, name := range sortedKeysAny(vv) {
+				if !strings.HasPrefix(name, "representations") {
+					continue
+				}
+				if reps, ok := vv[name].([]any); ok {
+					for _, rp := range reps {
+						q.reps = append(q.reps, canonValue(rp))
+					}
+				}
+			}
+		}
+	}
 	e.reqs = append(e.reqs, q)
 	e.inflight++
 	if e.inflight > e.maxInfl {
@@ -137,17 +156,22 @@ func (e *fedEnv) RoundTrip(req *http.Request) (*http.Response, error) {
 		return resp(200, `{"errors":[{"message":"upstream failed"}],"data":null}`, nil)
 	}
 	answer := e.serve(q, env.Query, env.Variables, env.OpName)
-	if q.fault == "entity_count" && strings.Contains(env.Query, "_entities") {
+	if q.fault == "entity_count" {
 		// drop the last entity of the list
+		dropped := false
 		var v map[string]any
 		if json.Unmarshal([]byte(answer), &v) == nil {
 			if d, ok := v["data"].(map[string]any); ok {
-				if l, ok := d["_entities"].([]any); ok && len(l) > 0 {
+				if l, ok := d["_entities"].([]any); ok && len(l) > 1 {
 					d["_entities"] = l[:len(l)-1]
 					b, _ := json.Marshal(v)
 					answer = string(b)
+					dropped = true
 				}
 			}
+		}
+		if !dropped {
+			q.fault = "" // not applicable to this request (merged multi-entity request): no fault injected
 		}
 	}
 	if e.corruptFn != nil {
@@ -193,11 +217,6 @@ func (e *fedEnv) serve(q *fedRequest, query string, variables json.RawMessage, o
 	for _, u := range sortedStrings(used) {
 		if _, ok := declared[u]; !ok {
 			e.viol = append(e.viol, fmt.Sprintf("subgraph %d: variable $%s used but not declared in %s", q.sub, u, short(query)))
-		}
-	}
-	if reps, ok := vars["representations"].([]any); ok {
-		for _, r := range reps {
-			q.reps = append(q.reps, canonValue(r))
 		}
 	}
 	before := len(e.viol)
@@ -257,6 +276,7 @@ func collectVars(sel []*gSelection, doc *gDocument, used map[string]bool, seen m
 
 type fedEngineOpts struct {
 	multiFetch, scheduleFetches bool
+	validateRequires            bool
 	resolver                    resolve.ResolverOptions
 }
 
@@ -359,6 +379,11 @@ func (e *fedEnv) buildEngine(ctx context.Context, o fedEngineOpts) (*engine.Exec
 		}
 	}
 	conf.SetFieldConfigurations(fcs)
+	conf.SimPlannerConfig().MinifySubgraphOperations = fedMinify
+	if o.validateRequires {
+		conf.SimPlannerConfig().BuildFetchReasons = true
+		conf.SimPlannerConfig().ValidateRequiredExternalFields = true
+	}
 	if o.multiFetch {
 		conf.EnableMultiFetch()
 	}
@@ -368,6 +393,10 @@ func (e *fedEnv) buildEngine(ctx context.Context, o fedEngineOpts) (*engine.Exec
 	ro := o.resolver
 	if ro.MaxConcurrency == 0 {
 		ro.MaxConcurrency = 1024
+	}
+	if o.validateRequires {
+		ro.PropagateFetchReasons = true
+		ro.ValidateRequiredExternalFields = true
 	}
 	return engine.NewExecutionEngine(ctx, abstractlogger.Noop{}, conf, ro)
 }
@@ -410,6 +439,24 @@ func (w *fedWriter) body() string {
 	return strings.Join(w.frames, "") + w.buf.String()
 }
 
+// fedMinify selects subgraph operation minification for the next buildEngine call.
+var fedMinify bool
+
+func simrtGo(tag string, f func()) { simrt.GoTag("harness", tag, f) }
+
+// execOne runs one operation in the calling task.
+func (e *fedEnv) execOne(eng *engine.ExecutionEngine, op *fedOp, ctxFn func(rc *resolve.Context)) (*fedExec, error) {
+	x := &fedExec{op: op, w: &fedWriter{}}
+	req := graphql.Request{OperationName: op.Name, Query: op.Query, Variables: json.RawMessage(op.Vars)}
+	var o []engine.ExecutionOptions
+	if ctxFn != nil {
+		o = append(o, engine.SimWithResolveContext(ctxFn))
+	}
+	x.err = eng.Execute(context.Background(), &req, x.w, o...)
+	x.done = true
+	return x, x.err
+}
+
 type fedExec struct {
 	op   *fedOp
 	w    *fedWriter
@@ -448,6 +495,10 @@ func (e *fedEnv) runOps(eng *engine.ExecutionEngine, ops []*fedOp, query func(*f
 }
 
 func (e *fedEnv) monolith(op *fedOp, query string, fail func(t, id, f string) bool) (*gResult, error) {
+	return e.monolithMode(op, query, fail, false)
+}
+
+func (e *fedEnv) monolithMode(op *fedOp, query string, fail func(t, id, f string) bool, nullInput bool) (*gResult, error) {
 	doc, err := parseGQL(query)
 	if err != nil {
 		return nil, err
@@ -457,7 +508,7 @@ func (e *fedEnv) monolith(op *fedOp, query string, fail func(t, id, f string) bo
 	dec.UseNumber()
 	_ = dec.Decode(&vars)
 	var muts []string
-	return gExecute(e.mono, doc, op.Name, vars, &monolithBackend{s: e.spec, fail: fail, muts: &muts})
+	return gExecute(e.mono, doc, op.Name, vars, &monolithBackend{s: e.spec, fail: fail, muts: &muts, nullInputOnFailure: nullInput})
 }
 
 func newFedEnv(r *core.Run, rich bool) *fedEnv {
@@ -576,3 +627,12 @@ func mustJSON(v any) string {
 }
 
 var _ = sort.Strings
+
+func sortedKeysAny(m map[string]any) []string {
+	out := make([]string, 0, len(m))
+	for k := range m {
+		out = append(out, k)
+	}
+	sort.Strings(out)
+	return out
+}
